@@ -64,7 +64,7 @@ FAMILIES = [
     # the documented +inf of Zeta needs the proposal to OVERFLOW (s very close to 1); the envelope has no overflow, so here an infinite
     # result can only come from a singular draw and is judged like everywhere else
     dict(name="Zeta", sample=_s("zeta::Zeta<F>"), ctor="zeta::Zeta::<F>::new", rng="ge1"),
-    dict(name="Zipf", sample=_s("zipf::Zipf<F>"), ctor="zipf::Zipf::<F>::new", rng="ge1"),
+    dict(name="Zipf", sample=_s("zipf::Zipf<F>"), ctor="zipf::Zipf::<F>::new", rng="ge1", hi="n"),
     dict(name="Binomial", sample=_s("binomial::Binomial", "u64"), ctor="binomial::Binomial::new", bits=(64,)),
     dict(name="Geometric", sample=_s("geometric::Geometric", "u64"), ctor="geometric::Geometric::new", bits=(64,)),
     dict(name="StandardGeometric", sample=_s("geometric::StandardGeometric", "u64"), ctor=None, bits=(64,)),
@@ -88,7 +88,7 @@ def find_sample_inst(F, path, bits):
     return None
 
 
-def envelope_cases(F, ax, fam, bits, tier, extremes=False):
+def envelope_cases(F, ax, fam, bits, tier, extremes=False, allow_mixed=False):
     """[(case name, case cells dict, self value)] : constructor Ok outcomes with finite arguments.
     With `extremes` the type's largest finite value and smallest subnormal are added as cells and IEEE rounding is on."""
     if fam["ctor"] is None:
@@ -119,7 +119,7 @@ def envelope_cases(F, ax, fam, bits, tier, extremes=False):
     for combo in itertools.product(*cellsets):
         vals = {n: c.value for n, c in zip(names, combo)}
         outs, ev, imp, okp = rules_c04.run_case(F, ax, entry, insts, vals, ieee=bits if extremes else None)
-        if outs == {"Ok"} and okp is not None:
+        if (outs == {"Ok"} or (allow_mixed and "Ok" in outs)) and okp is not None:
             out.append((", ".join("%s=%s" % (n, c.name) for n, c in zip(names, combo)), dict(zip(names, combo)), okp))
     return out
 
@@ -219,17 +219,21 @@ def run_family(args):
         res["oblig"].append((okey + "|not-nan", not g["nan"] and not g["top"], g["repr"]))
         res["oblig"].append((okey + "|finite", (not (g["pinf"] or g["ninf"]) or inf_ok) and not g["top"] and not g["nan"], g["repr"]))
         r = fam.get("rng")
+
+        def range_ok(g_):
+            if g_["top"] or g_["nan"] or g_["ninf"] or g_["lo"] is None:
+                return False
+            if r == "ge0":
+                return g_["lo"] >= 0
+            if r == "ge1":
+                return g_["lo"] >= 1
+            if r.startswith("ge:"):
+                c = cells[r[3:]]
+                return c.lo is not None and g_["lo"] >= c.lo
+            return False
+        g_range_ok = bool(r) and range_ok(g)
         if r:
-            ok = False
-            if not g["top"] and not g["nan"] and not g["ninf"] and g["lo"] is not None:
-                if r == "ge0":
-                    ok = g["lo"] >= 0
-                elif r == "ge1":
-                    ok = g["lo"] >= 1
-                elif r.startswith("ge:"):
-                    c = cells[r[3:]]
-                    ok = c.lo is not None and g["lo"] >= c.lo
-            res["oblig"].append((okey + "|range:" + r, ok, g["repr"]))
+            res["oblig"].append((okey + "|range:" + r, g_range_ok, g["repr"]))
         if len(res["samples"]) < 3:
             res["samples"].append({"case": cname, "generic_result": g["repr"], "draw_sites": len(sites)})
         # ---------------- tagged runs
@@ -251,6 +255,22 @@ def run_family(args):
                     bad.append("+inf")
                 if t["ninf"] and not g["ninf"]:
                     bad.append("-inf")
+                if g_range_ok and not bad and not range_ok(t):
+                    bad.append("a value below the support (%s)" % r)
+                # upper end of the support, decided only where the arithmetic is exact: every parameter is a single point and the
+                # tagged draw is a single point, evaluated with IEEE rounding of exactly known values
+                hic = cells.get(fam["hi"]) if fam.get("hi") and isinstance(cells, dict) else None
+                if hic is not None and all(getattr(c, "point", False) and not getattr(c, "inf_point", False) for c in cells.values()):
+                    ip3 = Interp(F, ax)
+                    ip3.ieee = bits
+                    rv3, st3 = ip3.run_root(sinst, [Rf(None, selfv, False), rng])
+                    res["runs"] += 1
+                    if st3 is not None:
+                        his = [l.hi() for l in flatten_result(ip3, rv3) if isinstance(l, Fl) and not l.nan]
+                        his = [h[0] for h in his if h is not None]
+                        if his and max(his) > hic.hi:
+                            bad.append("a value above %s = %s" % (fam["hi"], hic.hi))
+                            t = dict(t, repr=repr(rv3)[:160])
                 if bad:
                     spath, sspan = site_desc(F, sinst_key, sblock)
                     res["refuted"].append({"family": name, "bits": bits, "case": cname, "draw": kind, "special": sp, "site": spath,
@@ -414,7 +434,9 @@ def run(chk, F, tier, write_baseline=False):
     # (a) singularities
     seen = set()
     for rf in refuted:
-        key = "%s|%s|%s|%s" % (rf["family"], rf["site"], rf["draw"] + "@" + rf["special"], "NaN" if "NaN" in rf["gives"] else "non-finite")
+        key = "%s|%s|%s|%s" % (rf["family"], rf["site"], rf["draw"] + "@" + rf["special"],
+                               "NaN" if "NaN" in rf["gives"] else ("above-support" if any(g.startswith("a value above") for g in rf["gives"]) else
+                                                                 "below-support" if any(g.startswith("a value below") for g in rf["gives"]) else "non-finite"))
         if key in seen:
             continue
         seen.add(key)
